@@ -927,10 +927,21 @@ impl Drop for SMmap {
 impl VecS<u64> for SMmap {
     fn ops(&self) -> &'static [&'static str] {
         &["push", "pop", "resize", "extend_move", "extend_clone", "fill", "clear", "truncate", "pop_tail", "shrink", "reserve", "clone",
-          "set_mut:get_mut", "set_mut:as_mut_slice", "compare", "reopen"]
+          "set_mut:get_mut", "set_mut:as_mut_slice", "compare", "reopen", "sibling"]
     }
     fn as_any(&self) -> Option<&dyn std::any::Any> {
         Some(self)
+    }
+    /// a second, empty MmapVec of the same configuration (its own file)
+    fn sibling(&self) -> Option<Box<dyn VecS<u64>>> {
+        let path = mmap_path();
+        let mut cfg = self.cfg.clone();
+        cfg.read_only = false;
+        if cfg.initial_capacity > 64 {
+            cfg.initial_capacity = 2;
+        }
+        let v = MmapVec::<u64>::create(&path, cfg.clone()).ok()?;
+        Some(Box::new(SMmap { v: Some(v), path, cfg }))
     }
     fn set_mut(&mut self, how: &str, i: usize, x: u64) -> Option<u64> {
         let r = if how == "as_mut_slice" { self.m().as_mut_slice().get_mut(i) } else { self.m().get_mut(i) };
@@ -1429,6 +1440,100 @@ fn drive_vec<E: Elem>(a: &Args, name: &str, make: &dyn Fn(&str) -> Option<Box<dy
     let (mut nev, mut panics, mut refused, mut runs) = (0usize, 0usize, 0usize, 0usize);
     let mut nontrivial_runs = 0usize; // runs in which the container held something at some point
     let mut opcount: Map<String, Value> = Map::new();
+    // systematic: compare_range_simd of a range that does not start at 0 against an object holding exactly that range
+    // (answers true only if the other side is read from its start), below and above the 64-byte SIMD threshold
+    loop {
+        reg_reset();
+        let first = match guard(|| make(name)) {
+            Ok(Some(s)) => s,
+            _ => return json!({"constructed": false}),
+        };
+        if !first.ops().contains(&"compare") || readonly || !first.ops().contains(&"sibling") {
+            drop(first);
+            break;
+        }
+        let mut vr = VecRun::<E> { objs: vec![Some(first)], dead: false, nev: 0 };
+        tr.reset("seq", name, json!({"fam": fam_of(name), "variant": variant_of(name), "acct": E::ACCT, "readonly": readonly, "regime": "compare_ranges", "seed": a.seed}));
+        runs += 1;
+        let st = |op: &str, o: usize, i: usize, n: usize, xv: Vec<u32>| Step { op: op.into(), o, i, n, xv };
+        let script = vec![
+            st("extend_move", 1, 0, 0, (1..=12).collect()),
+            st("sibling", 1, 0, 0, vec![]),
+            st("extend_move", 2, 0, 0, (3..=12).collect()),
+            st("compare", 1, 2, 12, vec![2]),  // true, 10 elements (SIMD path)
+            st("compare", 1, 2, 5, vec![2]),   // true, 3 elements (scalar path)
+            st("compare", 1, 0, 3, vec![2]),   // false
+            st("compare", 1, 1, 11, vec![2]),  // false, SIMD path
+            st("compare", 1, 2, 13, vec![2]),  // range beyond the length: refused
+            st("compare", 1, 0, 12, vec![2]),  // longer than the other side: refused
+            st("compare", 2, 0, 10, vec![1]),  // false: the other side starts with 1, 2
+            st("compare", 1, 5, 5, vec![2]),   // empty range: true
+            st("set_mut:get_mut", 2, 9, 0, vec![77]),
+            st("compare", 1, 2, 12, vec![2]),  // false: last element differs (SIMD tail)
+            st("compare", 1, 2, 11, vec![2]),  // true again without the last element
+        ];
+        let mut tail = vec![];
+        for st in &script {
+            let e = vr.exec(st);
+            if e["op"] == "panic" {
+                panics += 1;
+            }
+            tr.ev(e);
+            nev += 1;
+            if vr.dead {
+                break;
+            }
+        }
+        vr.finish(&mut tail);
+        for e in tail {
+            tr.ev(e);
+            nev += 1;
+        }
+        nontrivial_runs += 1;
+        tr.flush();
+        break;
+    }
+    // systematic: shrink_to_fit at every small length, then push on (the capacity restarts from len), pop, shrink
+    // again, clear, shrink to nothing, push
+    let shrink_lens: &[usize] = if PRIMARY.contains(&name) || a.thorough() { &[0, 1, 2, 3, 4, 5, 8, 9] } else { &[0, 1, 3] };
+    for &k in shrink_lens {
+        reg_reset();
+        let first = match guard(|| make(name)) {
+            Ok(Some(s)) => s,
+            _ => return json!({"constructed": false}),
+        };
+        if !first.ops().contains(&"shrink") || readonly {
+            drop(first);
+            break;
+        }
+        let mut vr = VecRun::<E> { objs: vec![Some(first)], dead: false, nev: 0 };
+        tr.reset("seq", name, json!({"fam": fam_of(name), "variant": variant_of(name), "acct": E::ACCT, "readonly": readonly, "regime": "shrink_then_push", "k": k, "seed": a.seed}));
+        runs += 1;
+        let mut val = 1u32;
+        let mut script: Vec<&str> = vec!["push"; k];
+        script.extend(["shrink", "push", "push", "pop", "shrink", "push", "clear", "shrink", "push", "shrink"]);
+        let mut tail = vec![];
+        for op in script {
+            let st = Step { op: op.into(), o: 1, xv: vec![val], ..Default::default() };
+            val += 1;
+            let e = vr.exec(&st);
+            if e["op"] == "panic" {
+                panics += 1;
+            }
+            tr.ev(e);
+            nev += 1;
+            if vr.dead {
+                break;
+            }
+        }
+        vr.finish(&mut tail);
+        for e in tail {
+            tr.ev(e);
+            nev += 1;
+        }
+        nontrivial_runs += 1;
+        tr.flush();
+    }
     for (ri, &(steps, nruns, maxlen)) in regimes.iter().enumerate() {
         for run in 0..nruns {
             let mut rng = rng0.derive(&format!("{name}/{ri}/{run}"));
@@ -1650,8 +1755,9 @@ fn replay_vec<E: Elem>(a: &Args, name: &str, behaviours: &[Value], make: &dyn Fn
         ("mmapvec", "large_dataset") | ("mmapvec", "read_only_open") => usize::MAX,
         // zero-sized elements carry no value: the value-wise comparison of B2 does not apply
         (f, _) if f.ends_with("_zst") => usize::MAX,
-        ("mmapvec", "persistent_cache") | ("mmapvec", "builder_flags") => 10 * a.get_u64("mmap_stride", 7) as usize,
-        ("mmapvec", _) => a.get_u64("mmap_stride", 7) as usize,
+        ("mmapvec", "persistent_cache") | ("mmapvec", "builder_flags") => 20 * a.get_u64("mmap_stride", 7) as usize,
+        ("mmapvec", "cap_1_x2") | ("mmapvec", "cap_3_golden") => a.get_u64("mmap_stride", 7) as usize,
+        ("mmapvec", _) => 5 * a.get_u64("mmap_stride", 7) as usize,
         _ => 1,
     };
     let (mut executed, mut unsupported, mut mism, mut written, mut refused) = (0usize, 0usize, 0usize, 0usize, 0usize);
@@ -3250,6 +3356,7 @@ fn parent(a: &Args, child_mode: &str) {
     let subs: Vec<String> = all_subjects(&kind).into_iter().filter(|s| a.wants(s)).collect();
     std::fs::create_dir_all(&a.out).expect("out dir");
     let next = std::sync::atomic::AtomicUsize::new(0);
+    let spawn_failed = std::sync::atomic::AtomicBool::new(false);
     let results = std::sync::Mutex::new(Vec::<(String, Value)>::new());
     let nthreads = a.get_u64("threads", 8) as usize;
     std::thread::scope(|sc| {
@@ -3275,6 +3382,12 @@ fn parent(a: &Args, child_mode: &str) {
                 let outcome = run_child(&args, a.get_u64("child_secs", 900), 0, true);
                 let sp = a.out.join(format!("sum-{}.json", sanitize(name)));
                 let mut summ: Value = std::fs::read(&sp).ok().and_then(|b| serde_json::from_slice(&b).ok()).unwrap_or(json!({}));
+                // 126 / 127: the child could not even be started - a problem of the machinery, never a verdict
+                if matches!(outcome, ChildOutcome::Exit(126) | ChildOutcome::Exit(127)) {
+                    spawn_failed.store(true, std::sync::atomic::Ordering::SeqCst);
+                    results.lock().unwrap().push((name.clone(), json!({"tool_error": "child process could not be started"})));
+                    continue;
+                }
                 let crashed = match outcome {
                     ChildOutcome::Exit(0) => None,
                     ChildOutcome::Exit(c) => Some(json!({"op":"crash","how":"exit","code":c})),
@@ -3321,6 +3434,10 @@ fn parent(a: &Args, child_mode: &str) {
         per.insert(name, v);
     }
     write_summary(&a.out, &json!({"mode": child_mode, "events": events, "runs": runs, "executions": execs, "crashes": crashes, "subjects": per}));
+    if spawn_failed.load(std::sync::atomic::Ordering::SeqCst) {
+        eprintln!("c10: a child process could not be started (tool error)");
+        std::process::exit(3);
+    }
 }
 
 fn child_summary(a: &Args, name: &str, v: &Value) {
